@@ -32,6 +32,32 @@ def run(ctx):
         return cases
 
     cases = harness(n, ctx.seed, "h")
+
+    # Directed scenarios with FAILING handlers (session-manager errors), retried as the reconcilers do.  Handler failures are
+    # outside C09's quantifier (its events are Service / endpoint / node / configuration / membership changes), so a divergence
+    # found here is reported as KNOWN-FINDING when its signature is listed for C09 and otherwise only recorded in the evidence.
+    FAILURE_SIGS = {"speaker-node-resync-lost-after-handler-error", "bgp-ghost-advertisement-after-failed-set",
+                    "bgp-withdrawal-not-published-after-failed-delete", "speaker-config-half-applied-after-errornoretry",
+                    "config-reconciler-memo-keeps-unapplied-configuration"}
+    outside = []
+
+    def failure_scenarios():
+        recs, hok, log = ctx.go_harness("speaker", ["zz_verif_bgp_test.go", "zz_verif_spk_test.go", "zz_verif_fail_test.go"], "TestVerifSpkFailures$",
+                                        seed=ctx.seed, tag="fail", extra_overlay=OVERLAY)
+        recs2, hok2, log2 = ctx.go_harness("internal/k8s/controllers", ["zz_verif_spk_cfgmemo_test.go"], "TestVerifSpkCfgMemo$", seed=ctx.seed, tag="memo")
+        for r in recs + recs2:
+            if r.get("t") == "fail":
+                if r.get("sig") in FAILURE_SIGS and r["sig"] not in ctx.known:
+                    outside.append({"sig": r["sig"], "what": r.get("what", "")[:1200], "steps": (r.get("replay") or {}).get("steps")})
+                else:
+                    ctx.oracle_fail(r.get("sig", "?"), r.get("what", ""), r.get("replay"))
+            elif r.get("t") == "stat":
+                state["stats"][r["k"]] = state["stats"].get(r["k"], 0) + r["v"]
+        for okx, lg, nm in ((hok, log, "TestVerifSpkFailures"), (hok2, log2, "TestVerifSpkCfgMemo")):
+            if not okx and not any("does not build" in c for c in ctx.corr_broken):
+                ctx.corr_broken.append("harness %s failed: %s" % (nm, lg[-1500:]))
+
+    failure_scenarios()
     mism = []
     if cases and ok:
         mism = ctx.coq_cases("Run_Speaker", "scase", [c["coq"] for c in cases], shard=4 if ctx.tier == "quick" else 50,
@@ -58,6 +84,7 @@ def run(ctx):
 
     distinct = len({json.dumps(c["in"], sort_keys=True) for c in cases
                     if any(e.get("op") == "svc" for e in c["in"]["evs"]) and any(e.get("op") == "cfg" for e in c["in"]["evs"])})
+    ctx.cov["handler_failure_scenarios_outside_the_quantifier"] = outside
     ctx.cov["correspondence"] = {"cases": len(cases), "mismatches": len(mism), "generator_counters": st,
                                  "steps_compared": st.get("events", 0), "fresh_comparisons": st.get("oracle_fresh_comparisons", 0)}
     ctx.trusted += [
